@@ -213,17 +213,41 @@ def ocaml_build(name, driver, timeout=600):
 # ----------------------------------------------------------------------------- Rust harness
 
 def harness_build(binname, profile="dev", timeout=1500, extra_cfg=""):
+    """build one harness binary against REPO's current working tree.  REPO is /repo unless
+    VERIF_REPO names another tree (seeded-change and mutation runs use a private copy so that
+    /repo itself is never disturbed): then a copy of the harness crate pointing at that tree is
+    built into its own target directory."""
+    import shutil
     hd = os.path.join(ROOT, "harness")
+    tgt = TARGET
+    lockname = "cargo-" + profile
+    if os.path.abspath(REPO) != "/repo":
+        tag = hashlib.sha1(os.path.abspath(REPO).encode()).hexdigest()[:10]
+        dst = os.path.join(BUILD, "alt", tag, "harness")
+        tgt = os.path.join(BUILD, "alt", tag, "target")
+        os.makedirs(os.path.join(dst, "src", "bin"), exist_ok=True)
+        os.makedirs(os.path.join(dst, ".cargo"), exist_ok=True)
+        open(os.path.join(dst, "Cargo.toml"), "w").write(
+            open(os.path.join(hd, "Cargo.toml")).read().replace('path = "/repo"', 'path = "%s"' % os.path.abspath(REPO)))
+        open(os.path.join(dst, ".cargo", "config.toml"), "w").write('[net]\noffline = true\n[build]\ntarget-dir = "%s"\n' % tgt)
+        for f in os.listdir(os.path.join(hd, "src")):
+            pth = os.path.join(hd, "src", f)
+            if os.path.isfile(pth):
+                shutil.copy(pth, os.path.join(dst, "src", f))
+        for f in os.listdir(os.path.join(hd, "src", "bin")):
+            shutil.copy(os.path.join(hd, "src", "bin", f), os.path.join(dst, "src", "bin", f))
+        hd = dst
+        lockname = "cargo-alt-" + tag + "-" + profile
     lock = os.path.join(hd, "Cargo.lock")
     if not os.path.exists(lock):
         base = open(os.path.join(REPO, "Cargo.lock")).read()
         open(lock, "w").write(base)
     flags = "--cfg %s %s" % (GUARD, extra_cfg)
     prof = "" if profile == "dev" else "--release"
-    with Lock("cargo-" + profile):
+    with Lock(lockname):
         rc, out = sh("timeout %d cargo build --offline %s --bin %s 2>&1" % (timeout, prof, binname), cwd=hd,
                      env={"RUSTFLAGS": flags.strip()}, timeout=timeout + 30)
-    exe = os.path.join(TARGET, "debug" if profile == "dev" else "release", binname)
+    exe = os.path.join(tgt, "debug" if profile == "dev" else "release", binname)
     return rc == 0, out, exe
 
 
